@@ -16,7 +16,7 @@ CHECKS = {
    note=LANG_NOTE),
  "C08": dict(engine="langmc", cat="model_checking", ref="§2.3, §3 C08, §9",
    technique="bounded-exhaustive input enumeration in crash-isolated workers (termination, crash, determinism, located-error oracle); schedule part via controlled scheduler",
-   text="Every input of the finite spaces (alphabet strings incl. invalid UTF-8, structures x layouts, all truncations and edits, every byte value at every position of a few programs, short strings next to 70000-byte lines) is parsed twice in a worker process whose death or lack of progress is itself an observed outcome; errors must cite an in-range line and quote it. Schedule part: every interleaving of lexer goroutine and parser (controlled scheduler over the rewritten lexer) for all strings of <=3 (4) symbols. Supplementary: the same two goroutines free-running under the race detector over ~80000 inputs (reports only, never decides).",
+   text="Every input of the finite spaces (alphabet strings incl. invalid UTF-8, structures x layouts, all truncations and edits, every byte value at every position of a few programs, short strings next to 70000-byte lines) is parsed twice in a worker process whose death or lack of progress is itself an observed outcome; errors must cite an in-range line and quote it. Schedule part: every interleaving of lexer goroutine and parser (controlled scheduler over the rewritten lexer) for all strings of <=3 (4) symbols. Supplementary: the same two goroutines free-running under the race detector over ~80000 inputs, then every lexer-error input parsed by four goroutines at once and compared with the parse alone (reports only, never decides).",
    note=LANG_NOTE + " Hang detection: in-worker progress watchdog (25 s without completing a case that normally takes microseconds), confirmed twice on the single input."),
  "C11": dict(engine="langmc", cat="model_checking", ref="§2.3, §3 C11",
    technique="bounded-exhaustive input enumeration with format(format(x)) == format(x) oracle on the real formatter",
@@ -53,8 +53,8 @@ HIST_NOTE = ("Trusted base: Go toolchain; the reference model (last successful i
              "Every run transition is a real spok invocation (in-process parser.New/file.New/SpokFile.Run, a fresh SpokFile each time) on the materialised disk state.")
 CHECKS.update({
  "C01": dict(engine="histmc", cat="model_checking", ref="§2.1, §3 C01",
-   technique="explicit-state BFS to closure over (disk, reference-model) states, each transition executed by the real code, branching over every topological-sort iteration order; skip-soundness invariant on every run transition",
-   text="For each of 26 programs (literal/glob/task dependencies, shared files, file-less tasks, a file listed twice, a deletable dependency, task commands that rewrite or generate other tasks' inputs, declared outputs, symbolic links as inputs, literal names with pattern characters, task names like 'version', a task without commands, a spokfile that is edited between runs incl. dependency lists; thorough: plus every 1-task program and every 2-task program over {a.txt, *.src, sub/*.src}) the full state graph under the op alphabet {edit/create/revert/delete files, run any request list with/without force with any failing set, run with an unwritable cache file, remove cache} is explored to closure, i.e. all finite histories; every run op is also replayed through the built binary. Every reported skip must match the model's last success.",
+   technique="explicit-state BFS to closure over (disk, reference-model) states, each transition executed by the real code, branching over every topological-sort iteration order and (flagged programs) every iteration order of spok's own task/variable maps with deviation bound 1; skip-soundness invariant on every run transition",
+   text="For each of 26 programs (literal/glob/task dependencies, shared files, file-less tasks, a file listed twice, a deletable dependency, task commands that rewrite or generate other tasks' inputs, declared outputs, symbolic links as inputs, literal names with pattern characters, task names like 'version', a task without commands, a spokfile that is edited between runs incl. dependency lists; thorough: plus every 1-task program and every 2-task program over {a.txt, *.src, sub/*.src}) the full state graph under the op alphabet {edit/create/revert/delete files, run any request list with/without force with any failing set, run with an unwritable cache file, remove cache} is explored to closure, i.e. all finite histories; every run op is also replayed through the built binary. For the programs named in the evidence every iteration of SpokFile.Tasks / SpokFile.Vars inside file/file.go is a choice point as well (controlled-iteration overlay; at most one iteration per invocation leaves sorted order). Every reported skip must match the model's last success.",
    note=HIST_NOTE),
  "C02": dict(engine="histmc", cat="model_checking", ref="§2.1, §3 C02",
    technique="same explicit-state closure as C01 with the converse oracle (unchanged since last success => skipped, file-less tasks always run)",
@@ -71,11 +71,11 @@ SCHED_NOTE = ("Trusted base: Go toolchain; the hand-written controlled scheduler
 CHECKS.update({
  "C04": dict(engine="schedmc", cat="model_checking", ref="§2.2, §3 C04",
    technique="stateless exploration of every interleaving (preemption-bounded, thorough: unbounded with state-key pruning) of the real hash code under a controlled scheduler + exhaustive pairwise change-sensitivity over a file universe",
-   text="For every list of <=3 (thorough 4) entries over a path universe (duplicates, permutations, a directory) x NumCPU in {1,2,3}, Hash is executed under every schedule within the bound; the digest must be one value per multiset of (path, content) across all schedules, orders and CPU counts. All collections of <=3 (4) files from a universe built from the code's shortcuts (prefix/concatenation names, same basename, empty, 70KB differing in last byte, a symbolic link, two canonically equivalent Unicode names, a file inside a directory called .spok) must have pairwise different digests, also when listed with duplicates. Environment corners on the real file system: re-pointed and swapped links, /proc/uptime (size 0 with content), GOMAXPROCS 1-4, files of 16/32/64 MiB touched and changed with size and time kept, two files on different file systems sharing an inode number. Free-running: lists of 0-261 and 1023-8200 files, each with single-file content changes (incl. same size and mtime), reversal and repeated calls.",
+   text="For every list of <=3 (thorough 4) entries over a path universe (duplicates, permutations, a directory) x NumCPU in {1,2,3}, Hash is executed under every schedule within the bound; the digest must be one value per multiset of (path, content) across all schedules, orders and CPU counts. All collections of <=3 (4) files from a universe built from the code's shortcuts (prefix/concatenation names, same basename, empty, 70KB differing in last byte, a symbolic link, two canonically equivalent Unicode names, a file inside a directory called .spok) must have pairwise different digests, also when listed with duplicates. Environment corners on the real file system: re-pointed and swapped links, /proc/uptime (size 0 with content), GOMAXPROCS 1-4, files of 16/32/64 MiB touched and changed with size and time kept, two files on different file systems sharing an inode number. Free-running: lists of 0-261 and 1023-8200 files, each with single-file content changes (incl. same size and mtime), reversal and repeated calls; a free-running call must leave the list it was given as it was. The limit on open files is an environment answer: five lists (3 and 40 files, with and without a missing one) in a fresh process under soft limits 1024..8 - a shortage may turn a digest into an error, never into another digest or a digest for an unopenable file.",
    note=SCHED_NOTE),
  "C18": dict(engine="schedmc", cat="model_checking", ref="§2.2, §3 C18",
    technique="stateless exploration of every interleaving and every single injected open/read fault of the real hash code under a controlled scheduler with deadlock/leak/livelock/panic detection",
-   text="Lists of <=3 entries of kinds {regular, directory, missing, dangling link, unreadable} in every position x NumCPU in {1,2,3} under every schedule within preemption bound 2 (1 for length 3; thorough 2 and unbounded for sizes 0..4 x NumCPU 1..4), plus <=1 (thorough 2) injected fault (open fails as vanished or as out-of-descriptors, copy fails mid-read, a 16 MiB file shrinks under a memory mapping): no deadlock, livelock, panic in any goroutine or goroutine left blocked; digest xor error; error whenever an entry could not be read.",
+   text="Lists of <=3 entries of kinds {regular, directory, missing, dangling link, unreadable} in every position x NumCPU in {1,2,3} under every schedule within preemption bound 2 (1 for length 3; thorough 2 and unbounded for sizes 0..4 x NumCPU 1..4), plus <=1 (thorough 2) injected fault (open fails as vanished or as out-of-descriptors, copy fails mid-read, a 16 MiB file shrinks under a memory mapping): no deadlock, livelock, panic in any goroutine or goroutine left blocked; digest xor error; error whenever an entry could not be read. Free-running in fresh processes under open-file limits 1024, 256, 64, 33, 32, 24, 17, 16, 15, 12, 8: no crash, no hang, no goroutine left, no digest for a list with a missing file. Supplementary race-detector pass: every list shape alone and shared by four concurrent callers.",
    note=SCHED_NOTE + " Memory-level data races and 10^4-element lists are outside exhaustive reach (stated in DESIGN.md §6)."),
 })
 
